@@ -252,6 +252,10 @@ func matchInsensitiveValue(s1 string, s2 string, ignoreCase bool) bool {
 
 // matches elements where the attribute named key satisifes the function f.
 func matchAttribute(n *html.Node, key string, f func(string) bool) bool {
+	if n.Type != html.ElementNode {
+		// html.Parse stores the public and system identifiers of a doctype as attributes
+		return false
+	}
 	for _, a := range n.Attr {
 		if a.Key == key && f(a.Val) {
 			return true
